@@ -91,7 +91,7 @@ def run(ctx):
     # from parked pools): no sequence of them may stop the process either — a crash here needs several steps (a pool
     # announcing a job id twice, then a switch back to it)
     sess_cases = 0
-    rc, out = L.run_harness(ctx, exe, "TestVerifSession$", env={"VERIF_N": 200 if quick else 3000, "VERIF_MAXOPS": 30 if quick else 60, "VERIF_FLUSH": 1}, timeout=1700)
+    rc, out = L.run_harness(ctx, exe, "TestVerifSession$", env={"VERIF_N": 200 if quick else 3000, "VERIF_MAXOPS": 30 if quick else 60, "VERIF_FLUSH": 1}, timeout=240 if quick else 1700)
     if rc != 0:
         if not L.crash_violation(ctx, "sess.impl.txt", out, "c05"):
             ctx.tie_failures.append("session harness run failed (rc=%d): %s" % (rc, out[-300:]))
